@@ -68,6 +68,14 @@ def check(run, prog, tier):
     run.rule("C18-L", "text files keep the shape of what was exported (rank written, nothing squeezed on reading), and an axis "
                       "filled from a file is changed as a whole (points, start, step, length)", minimum=5)
     rule_L(run, prog)
+    run.rule("C18-M", "the save/load entry points of every class call the routines they delegate to with arguments these take "
+                      "(an override that passes keywords its parent does not know cannot import what was exported)", minimum=10)
+    from .. import apiexist
+    entry = [f for f in prog.all_functions() if f.name in ("load_data", "save_data", "load", "save", "loaddir", "savedir")
+             and ".tests." not in f.qualname and ".wizard." not in f.qualname]
+    n_ = apiexist.check_call_arity(run, "C18-M", prog, entry, "the file cannot be read back by this class")
+    if n_ < 10:
+        raise AnalysisError("C18-M: only %d save/load entry points with resolved calls (14 confirmed)" % n_)
 
 
 def rule_L(run, prog):
